@@ -86,7 +86,7 @@ theorem xover_accepted_partial (mac : MacFn) (net : Net) (now : Nat)
 /-- What is still open (stated by `C02_full`, tied by the engine, not proved): segment changes
     involving a core segment (up+core, core+down, up+core+down — the run lemmas `run_transits`,
     `xover_step`, `down_tail_run`, `up_tail_run` are already generic in the segments before and
-    after, the two-/three-edge glue is missing), stage 3 `peering_accepted` (the peering hop step
+    after, the glue for two and three edges is missing), stage 3 `peering_accepted` (the peering hop step
     is not written), and several border routers per AS. -/
 def remaining_stages : Prop := C02_full
 
